@@ -32,6 +32,9 @@ pub struct Case {
     /// the send window is exactly as large as the number of exchanges outstanding at once (nothing to spare)
     #[serde(default)]
     pub tight: bool,
+    /// v5: the peer refuses the publishes with odd packet ids with a negative PUBREC (0x87)
+    #[serde(default)]
+    pub neg: bool,
 }
 
 fn fail(c: &Case, rule: &str, detail: String) -> Failure {
@@ -42,6 +45,7 @@ pub async fn run_case(c: Case) -> Result<CaseInfo, Failure> {
     let m = usize::from(c.m);
     let limit = if c.tight { c.m as u16 + u16::from(c.qos1 != 0) } else { c.m as u16 + 2 };
     let mut w = World::start(c.role, limit, LimitHow::Config, 0).await.map_err(|f| fail(&c, "harness-handshake", f.detail))?;
+    w.neg_pubrec = c.neg && c.role.is_v5();
     let e = |f: Failure| fail(&c, &f.rule.clone(), f.detail);
     let mut q1_slot: Option<usize> = None;
     if c.qos1 == 1 {
@@ -74,16 +78,22 @@ pub async fn run_case(c: Case) -> Result<CaseInfo, Failure> {
     // one step of the application: release or drop the receipt of send i
     async fn do_release(c: &Case, w: &mut World, i: usize, first_q2: usize, ids: &[u16], rel_slot: &mut [Option<usize>]) -> Result<(), Failure> {
         let slot = first_q2 + i;
+        let mut negative = false;
         let ridx = match &w.slots[slot].result {
             Some(SendRes::Receipt(idx, ack)) => {
                 if c.role.is_v5() && ack.pid != ids[i] {
                     return Err(fail(c, "receipt-of-other-send", format!("send #{i} (id {}) resolved with the PUBREC of id {}", ids[i], ack.pid)));
                 }
+                if w.neg_pubrec && (ack.reason >= 0x80) != (ids[i] % 2 == 1) {
+                    return Err(fail(c, "receipt-contents", format!("send #{i} (id {}) resolved with PUBREC reason {:#x}", ids[i], ack.reason)));
+                }
+                negative = ack.reason >= 0x80;
                 *idx
             }
             other => return Err(fail(c, "send-not-resolved", format!("send #{i} (id {}) did not resolve with a receipt after its PUBREC: {other:?}; futures {:?}", ids[i], w.results_summary()))),
         };
         let before = w.requests.iter().filter(|r| r.t == 6).count();
+        let credit_before = w.eut.credit();
         let pos = w.receipts.iter().position(|r| r.1 == ridx && r.2).ok_or_else(|| fail(c, "harness-receipt", "receipt bookkeeping".into()))?;
         if c.drop_mask >> i & 1 == 1 {
             w.receipts[pos].2 = false;
@@ -104,7 +114,9 @@ pub async fn run_case(c: Case) -> Result<CaseInfo, Failure> {
         }
         w.apply(Op::Settle).await.map_err(|f| fail(c, &f.rule, f.detail))?;
         let rels: Vec<u16> = w.requests.iter().filter(|r| r.t == 6).map(|r| r.id).collect();
-        if rels.len() != before + 1 || rels.last() != Some(&ids[i]) {
+        // after a negative PUBREC the specification ends the exchange without PUBREL: accepted when the slot is given back at once
+        let ended_by_pubrec = negative && rels.len() == before && w.eut.credit() == credit_before.map(|c| c + 1);
+        if (rels.len() != before + 1 || rels.last() != Some(&ids[i])) && !ended_by_pubrec {
             return Err(Failure::new(
                 "pubrel-count",
                 format!("C14/{}/pubrel-for-own-id", c.role.name()),
@@ -200,7 +212,7 @@ pub async fn run_case(c: Case) -> Result<CaseInfo, Failure> {
     }
     for i in 0..m {
         let n = w.requests.iter().filter(|r| r.t == 6 && r.id == ids[i]).count();
-        if n != 1 {
+        if n != 1 && !(n == 0 && w.neg_pubrec && ids[i] % 2 == 1) {
             return Err(Failure::new("pubrel-count", format!("C14/{}/pubrel-for-own-id", c.role.name()), format!("id {}: {n} PUBREL packets on the wire", ids[i])));
         }
         if let Some(s) = rel_slot[i] {
@@ -272,8 +284,11 @@ pub fn run(ctx: &Ctx, started: Instant) -> i32 {
                             if m == 4 && qos1 > 1 && flags & 3 != 0 {
                                 continue; // keep the thorough space in bounds
                             }
-                            work.push(Case { role, m, qos1, rec_batch: flags & 1 != 0, poll_between: flags & 2 != 0, rel_order: perm.clone(), drop_mask, comp_batch: flags & 4 != 0, pipelined, tight: false });
-                            work.push(Case { role, m, qos1, rec_batch: flags & 1 != 0, poll_between: flags & 2 != 0, rel_order: perm.clone(), drop_mask, comp_batch: flags & 4 != 0, pipelined, tight: true });
+                            work.push(Case { role, m, qos1, rec_batch: flags & 1 != 0, poll_between: flags & 2 != 0, rel_order: perm.clone(), drop_mask, comp_batch: flags & 4 != 0, pipelined, tight: false, neg: false });
+                            work.push(Case { role, m, qos1, rec_batch: flags & 1 != 0, poll_between: flags & 2 != 0, rel_order: perm.clone(), drop_mask, comp_batch: flags & 4 != 0, pipelined, tight: true, neg: false });
+                            if role.is_v5() && (m < 4 || flags & 3 == 0) {
+                                work.push(Case { role, m, qos1, rec_batch: flags & 1 != 0, poll_between: flags & 2 != 0, rel_order: perm.clone(), drop_mask, comp_batch: flags & 4 != 0, pipelined, tight: flags & 1 != 0, neg: true });
+                            }
                         }
                     }
                 }
@@ -289,9 +304,9 @@ pub fn run(ctx: &Ctx, started: Instant) -> i32 {
     let report = Report {
         level: "exploration",
         rule: format!(
-            "exhaustive: m = 2..={max_m} concurrent send_exactly_once x every release order x every release/drop mask x PUBRECs one per write or batched x polls between PUBRECs x PUBCOMPs singly or batched x pipelined or phased schedule x send window with two slots to spare or exactly full x \
+            "exhaustive: m = 2..={max_m} concurrent send_exactly_once x every release order x every release/drop mask x PUBRECs one per write or batched x polls between PUBRECs x PUBCOMPs singly or batched x pipelined or phased schedule x (v5) the peer refusing the odd packet ids with a negative PUBREC x send window with two slots to spare or exactly full x \
              QoS 1 send before / after the QoS 2 sends / after the PUBRECs, for v3/v5 servers and clients ({} schedules). The peer answers in order of receipt. Oracle: every send resolves with the receipt of its own id; no release fails with UnexpectedRelease; \
-             each release or drop writes exactly one PUBREL with its own id; a release completes exactly when its own PUBCOMP was delivered; at the end everything completed, connection alive, credit() == limit. \
+             each release or drop writes exactly one PUBREL with its own id (after a negative PUBREC also accepted: no PUBREL and the slot given back at once); a release completes exactly when its own PUBCOMP was delivered; at the end everything completed, connection alive, credit() == limit. \
              Non-trivial = >= 2 exchanges simultaneously between PUBREC and PUBCOMP (or pipelined); distinct = the schedule",
             work.len()
         ),
